@@ -95,7 +95,24 @@ ADD = {
  "C19": "As built: 9 values incl. asymmetric and tolerance equality, prefilled storages to 140 values, generic value types (zero-sized, String, large, f32, Cow with cross-variant equality, an equality that panics), storages of 255 ... 131 073 values, every operation repeated 8 ... 256 times between all short prefixes and continuations.",
  "C20": "As built: 25k files quick incl. every unmodified seed, class sequences, string tails in partial words, short files with foreign first words, outputs of 1 B ... 256 KiB per line and multi-byte characters across every 64 KiB phase, exhaustive narrow constants; plus an in-process prefilter over the whole universe whose panics are handed to the real tool.",
 }
+ADD9 = {
+ "C02": "Round 9: + OpExtInst behind imports of ten set names for every number 0..210, numeric types used before their declaration and again after it.",
+ "C04": "Round 9: + id-relation sequences over ids {1,2,3} (rings, values typed by values), dense large modules (up to 1.1M / 2.2M declarations), one Loader used for two parses (every loader state x every opcode); a stack overflow of the checking process is reported by bin/check as a violation.",
+ "C05": "Round 9: + function-structure sequences over ids {1,2,3} (declared function types, parameters, same-id functions) to depth 5-7 (thorough 6-9), one Loader fed two streams.",
+ "C06": "Round 9: + ext_inst through imports of ten set names x every number 0..210 x three operand lists, built, assembled, loaded and compared.",
+ "C09": "Round 9: + repetition (300x / 70 000x the same lookup, then its neighbours); supplementary SAMPLED probe (not exhaustive): 150 / 1500 fresh processes whose first lookups are made by 16 spinning threads.",
+ "C10": "Round 9: + every extension name of the grammar, every capability, imports and memory models in front of width-sensitive declarations.",
+ "C12": "Round 9: + functions with declared result / function types (per-method contexts 8-11), ten names with multi-byte characters / prefixes / mangled forms for name and select_function_by_name, interleaved functions switched by name (by-name selection = selection of the function found).",
+ "C13": "Round 9: + the requested type mentioned by eight debug / annotation / entry-point / execution-mode methods before it is requested again.",
+ "C15": "Round 9: + 640 three-function modules (bodies x {Linkage,Shader,Kernel} x linkage / name / entry-point targets), assemble clause checked before and after the ids are rewritten.",
+ "C16": "Round 9: + declared function types, an earlier function labelled with the call's own ids, a switch by name to a finished function while a block is open (every block-level call must fail).",
+ "C17": "Round 9: + nine header versions x every host x every value; string payloads of 2^8 .. 2^24 bytes.",
+ "C18": "Round 9: + def-use chains of 1-4 operations for 314 opcodes ending in the terminator, composite constants with 0-6 constituents for vector / struct / array types.",
+ "C20": "Round 9: + id-relation files (rings of ids), and termination is now checked: every run of the tool has a 20 s wall-clock horizon (stdout / stderr to files).",
+}
 for pid, t in ADD.items():
+    C[pid]["level_claimed"]["text"] += " " + t
+for pid, t in ADD9.items():
     C[pid]["level_claimed"]["text"] += " " + t
 
 m = {"version": 1, "setup_cmd": "bin/setup",
